@@ -211,26 +211,28 @@ Token::firstCharacterOptions Token::analyzeFirstCharacter(RangeToken* const rang
             if (childSize == 0)
                 return FC_CONTINUE;
 
-            firstCharacterOptions ret = FC_CONTINUE;
+            // a branch that may start with any character makes the whole union
+            // do so; a branch that may be empty hands over to what follows
             bool hasEmpty = false;
 
             for (XMLSize_t i=0; i < childSize; i++) {
 
-                ret = getChild(i)->analyzeFirstCharacter(rangeTok, options, tokFactory);
+                firstCharacterOptions ret =
+                    getChild(i)->analyzeFirstCharacter(rangeTok, options, tokFactory);
 
                 if (ret == FC_ANY)
-                    break;
-                else
+                    return FC_ANY;
+                else if (ret == FC_CONTINUE)
                     hasEmpty = true;
             }
-            return hasEmpty ? FC_CONTINUE : ret;
+            return hasEmpty ? FC_CONTINUE : FC_TERMINAL;
         }
     case T_CLOSURE:
     case T_NONGREEDYCLOSURE:
         {
             Token* tok = getChild(0);
-            if (tok)
-                tok->analyzeFirstCharacter(rangeTok, options, tokFactory);
+            if (tok && tok->analyzeFirstCharacter(rangeTok, options, tokFactory) == FC_ANY)
+                return FC_ANY;
             return FC_CONTINUE;
         }
     case T_DOT:
@@ -285,7 +287,8 @@ Token::firstCharacterOptions Token::analyzeFirstCharacter(RangeToken* const rang
             const XMLCh* str = getString();
             XMLInt32 ch = str[0];
 
-            if (RegxUtil::isHighSurrogate((XMLCh) ch)) {
+            if (RegxUtil::isHighSurrogate((XMLCh) ch) && RegxUtil::isLowSurrogate(str[1])) {
+                ch = RegxUtil::composeFromSurrogate((XMLCh) ch, str[1]);
             }
 
             rangeTok->addRange(ch, ch);
